@@ -192,7 +192,10 @@ def check_edges_and_held(res, facts, prop):
     cap = facts.const_int('synth_utils::mono_midi_receiver::HELD_DOWN_NOTE_BUFFER_LEN')
     global LEN_CLASSES
     LEN_CLASSES = [('empty', (0, 0)), ('one', (1, 1)), ('some', (2, cap - 1)), ('full', (cap, cap))]
-    msgs = [
+    msgs = []
+    if prop == 'C06':
+        msgs = [('cc%d' % n, 'ControlChange', dict(cc=n)) for n in sorted(CC_TABLE) if n != 123]
+    msgs += [
         ('note_on', 'NoteOn', dict(vel_range=(1, 127))),
         ('note_on_vel0', 'NoteOn', dict(vel_range=(0, 0))),
         ('note_off', 'NoteOff', {}),
@@ -228,7 +231,11 @@ def check_edges_and_held(res, facts, prop):
                                where=where_of(facts, RX + '::parse'))
                         continue
                     post = o.cells[cell]
-                    if prop == 'C05':
+                    if prop == 'C06':
+                        res.ob('R-FRAME', 'handled:' + inst + '|returns', True, 'no panic on this path', where_of(facts, RX + '::parse'), key='R-FRAME:handled:' + inst, nontrivial=False)
+                        res.ob('R-FRAME', 'handled:' + inst + '|parser state untouched by the handlers', same(pre.get('parser'), post.get('parser')),
+                               'the receiver overwrote its byte parser (%r): running status / partial messages are lost' % (post.get('parser'),), where_of(facts, RX + '::parse'), key='R-FRAME:parser:' + inst)
+                    elif prop == 'C05':
                         edge_obligations(res, facts, inst, ps, mname, pre, post, o)
                     else:
                         held_obligations(res, facts, inst, ps, mname, prio, pre, post, o, msg)
